@@ -169,8 +169,45 @@ class Exec:
         if keep_invs is not None:
             # the clause declares which loop invariants its proof needs: the others are left out of the hypotheses
             # (fewer hypotheses can only make the proof harder, never unsound; it keeps the query small and stable)
+            # Facts assumed from a callee's clauses carry the callee clause's label; they are filtered only when the list
+            # names at least one callee clause (a list of own invariants alone keeps every callee fact).
             tags = st.ghost.get("inv_tags", {})
-            pc = [f for f in pc if not (is_z3(f) and f.get_id() in tags and tags[f.get_id()][1].eq(f) and tags[f.get_id()][0] not in keep_invs)]
+            callee_labs = {t[0] for t in tags.values() if len(t) > 2 and t[2] == "callee"}
+            filter_callee = bool(callee_labs & set(keep_invs))
+
+            def _drop(f):
+                if not (is_z3(f) and f.get_id() in tags and tags[f.get_id()][1].eq(f)):
+                    return False
+                t = tags[f.get_id()]
+                if len(t) > 2 and t[2] == "callee" and not filter_callee:
+                    return False
+                return t[0] not in keep_invs
+            pc = [f for f in pc if not _drop(f)]
+            if "-path" in keep_invs and "entry_pc" in st.ghost:
+                # a clause that follows from earlier clauses alone (a proof step independent of the code): only the
+                # precondition and the named clauses are its hypotheses, nothing the path through the body added
+                n0 = st.ghost["entry_pc"]
+                pc = [f for i, f in enumerate(list(st.pc)) if (i < n0 and any(f is g for g in pc)) or
+                      (i >= n0 and is_z3(f) and f.get_id() in tags and tags[f.get_id()][1].eq(f) and tags[f.get_id()][0] in keep_invs)]
+        if gfs and keep_invs is not None and is_z3(goal):
+            # the clause has declared what it needs: global definitional facts (prefix sums, congruences) are kept only
+            # when they share a function symbol with the goal or the kept hypotheses (transitively)
+            syms = set(func_syms(goal))
+            for f in pc:
+                if is_z3(f):
+                    syms |= func_syms(f)
+            rest, kept, changed = list(gfs), [], True
+            while changed:
+                changed = False
+                for f in list(rest):
+                    fs = func_syms(f)
+                    link = {x for x in fs if x.startswith(("psum!", "cumsum!")) or "_el!" in x}
+                    if (link & syms) if link else (fs & syms):
+                        kept.append(f)
+                        rest.remove(f)
+                        syms |= fs
+                        changed = True
+            gfs = kept
         hyps = pc + gfs
         if is_z3(goal):
             # safety net: no formula of this obligation may mention, as a free constant, a name that a quantifier of the
@@ -189,6 +226,10 @@ class Exec:
         if expect == "unsat" and is_z3(goal):
             extra, goal, consts = skolemize(goal)
             hyps += extra
+            # ground terms that occur only inside quantifier bodies of the goal are invisible to trigger-based
+            # instantiation of the hypotheses; mention them under a fresh unconstrained predicate (a conservative
+            # extension: the predicate can be true everywhere)
+            hyps += ground_markers(goal)
             if split is not None and consts:
                 k0 = consts[0]
                 self.ctx.obls.append(Obl(name + "#new", kind, hyps + [k0 == to_z3(split)], goal, fn=key, line=line))
@@ -1108,7 +1149,14 @@ class Exec:
                 if keep is not None and lab not in keep:
                     continue       # the caller's contract says which of the callee's clauses its proof uses (fewer is sound)
                 f = self.spec_formula(ens, spec_env, st, old_st=pre_st)
-                st.assume(_b(f))
+                fb = _b(f)
+                st.assume(fb)
+                if is_z3(fb):
+                    # tagged with its label, so that a clause of the caller can name the callee clauses it needs
+                    st.ghost = dict(st.ghost)
+                    tags = dict(st.ghost.get("inv_tags", {}))
+                    tags[fb.get_id()] = (lab, fb, "callee")
+                    st.ghost["inv_tags"] = tags
         finally:
             self.assume_mode -= 1
         outs.append((st, res))
@@ -1850,6 +1898,65 @@ def has_quant(f):
         todo += t.children()
     _HQ[i] = (f, res)
     return res
+
+
+_MARK = {}
+
+
+def func_syms(t, _cache={}):
+    """names of the uninterpreted function symbols (arity > 0) occurring in t, except the arithmetic stand-ins"""
+    i = t.get_id()
+    hit = _cache.get(i)
+    if hit is not None and hit[0].eq(t):
+        return hit[1]
+    out, seen, todo = set(), set(), [t]
+    while todo:
+        x = todo.pop()
+        xi = x.get_id()
+        if xi in seen:
+            continue
+        seen.add(xi)
+        if z3.is_quantifier(x):
+            todo.append(x.body())
+        elif z3.is_app(x):
+            if x.num_args() > 0 and x.decl().kind() == z3.Z3_OP_UNINTERPRETED:
+                nm = x.decl().name()
+                if nm not in ("mulR", "mulI", "divR"):
+                    out.add(nm)
+            todo += x.children()
+    _cache[i] = (t, out)
+    return out
+
+
+def ground_markers(goal, limit=24):
+    out, seen = [], set()
+
+    def has_var(t, memo={}):
+        i = t.get_id()
+        if i in memo and memo[i][0].eq(t):
+            return memo[i][1]
+        r = z3.is_var(t) or (z3.is_quantifier(t)) or any(has_var(c) for c in t.children())
+        memo[i] = (t, r)
+        return r
+
+    def walk(t, inside):
+        if len(out) >= limit or t.get_id() in seen:
+            return
+        seen.add(t.get_id())
+        if z3.is_quantifier(t):
+            walk(t.body(), True)
+            return
+        if z3.is_app(t):
+            if inside and t.num_args() > 0 and t.decl().kind() == z3.Z3_OP_UNINTERPRETED and not has_var(t):
+                so = t.sort()
+                key = so.name()
+                if key not in _MARK:
+                    _MARK[key] = z3.Function("ground_marker_" + key, so, z3.BoolSort())
+                out.append(_MARK[key](t))
+            for c in t.children():
+                walk(c, inside)
+    walk(goal, False)
+    return out
 
 
 def skolemize(goal):
